@@ -136,16 +136,24 @@ class Model:
                 out.append('@[%s]@' % text)
         return ''.join(out)
 
-    def string_value(self, sspec):
-        """STRING made of fragments [style, pieces]; hard quoted fragments are literal."""
-        return ''.join(self.pieces_value(pieces, substitute=(style != 'h')) for style, pieces in sspec['frs'])
+    def string_value(self, sspec, text_source_position=False):
+        """STRING: the concatenation of its fragments (`string_chunks`: the concrete syntax the case denotes);
+        a reference in a naked or soft quoted fragment is substituted (string conversion of lists and paths),
+        hard quoted fragments are literal."""
+        return ''.join(self.sym_as_string(text) if is_ref else text
+                       for style, text, is_ref in string_chunks(sspec, text_source_position))
 
     def args_value(self, args, last=None):
         out = []
         for a in args:
             k = a['k']
             if k == 'str':
-                out.append(self.string_value(a))
+                name = bare_reference(a)
+                if name is not None:
+                    # LIST / PROGRAM-ARGUMENT: an element that is exactly one unquoted SYMBOL-REFERENCE
+                    out.extend(self.sym_as_list(name))
+                else:
+                    out.append(self.string_value(a))
             elif k == 'ref':
                 out.extend(self.sym_as_list(a['n']))
             elif k == 'hardref':
@@ -199,7 +207,7 @@ class Model:
         k = ts['k']
         pgm = False
         if k == 'str':
-            text = self.string_value(ts['s'])
+            text = self.string_value(ts['s'], text_source_position=True)
         elif k == 'here':
             text = ''.join(self.pieces_value(l) + '\n' for l in ts['lines'])
         elif k == 'file':
@@ -476,6 +484,92 @@ class Model:
         return {'exit': cfg.get('exit', 0), 'stdout': cfg.get('stdout', ''), 'stderr': cfg.get('stderr', '')}
 
 
+# ---------------------------------------------------------------------------
+# concrete syntax of a STRING (shared with the renderer: the case denotes exactly this token)
+# ---------------------------------------------------------------------------
+NAKED_FORBIDDEN_CHARS = set(' \t\n\r\'"\\')
+NAKED_FORBIDDEN_TOKENS = set(RESERVED_WORDS) | {'-existing-file', '-existing-dir', '-existing-path'}
+
+
+def _quote_literal(text, pref):
+    """-> list of (style, text) chunks that denote `text` literally; style in n(aked) / s(oft) / h(ard): the
+    preferred style where the syntax allows it, otherwise the nearest legal quoting."""
+    if text == '':
+        return [('h' if pref == 'h' else 's', '')]
+    if pref == 'n' and not (set(text) & NAKED_FORBIDDEN_CHARS):
+        return [('n', text)]
+    if pref != 'h' and '"' not in text and '\\' not in text:
+        return [('s', text)]
+    if "'" not in text:
+        return [('h', text)]
+    # both kinds of quotes (or a backslash and a hard quote): split at the hard quotes
+    out = []
+    cur = ''
+    for ch in text:
+        if ch == "'":
+            if cur:
+                out.append(('h', cur))
+                cur = ''
+            out.append(('s', "'"))
+        else:
+            cur += ch
+    if cur:
+        out.append(('h', cur))
+    return out
+
+
+def string_chunks(sspec, text_source_position=False):
+    """STRING spec {'frs': [[style, pieces]]}, piece = ['t', text] | ['r', symbol name]
+    -> the fragments of the token as written: [(style n|s|h, text, is_substituted_reference)]; every fragment is
+    written with its own quotes, fragments are put side by side.  For a reference `text` is the symbol name; a
+    reference inside hard quotes is the literal text `@[NAME]@` (is_substituted_reference False).
+    text_source_position: the string is a TEXT-SOURCE - a naked symbol reference would be the SYMBOL-REFERENCE form
+    (text-source or string symbols only) and a leading naked '-' an option: naked fragments are soft quoted there."""
+    chunks = []
+    for style, pieces in sspec['frs']:
+        if text_source_position and style == 'n':
+            style = 's'
+        for kind, text in pieces:
+            if kind == 't':
+                if text == '' and len(pieces) > 1:
+                    continue
+                for st, tx in _quote_literal(text, style):
+                    chunks.append((st, tx, False))
+            elif style == 'h':
+                chunks.append(('h', '@[%s]@' % text, False))
+            else:
+                chunks.append((style, text, True))
+    if not chunks:
+        return [('s', '', False)]
+    src = [('@[%s]@' % tx) if r else tx for _, tx, r in chunks]
+    # side-by-side fragments must not form something else than their concatenation
+    for i in range(1, len(chunks)):
+        st, tx, r = chunks[i]
+        if st == 'n' and chunks[i - 1][0] == 'n' and not r and (
+                (src[i - 1].endswith('@') and tx.startswith('[')) or (src[i - 1].endswith(']') and tx.startswith('@'))):
+            chunks[i] = ('s', tx, r)  # would read as (part of) a symbol reference
+    naked_prefix = ''
+    for i, (st, tx, r) in enumerate(chunks):
+        if st != 'n':
+            break
+        naked_prefix += src[i]
+    if naked_prefix.startswith('<<') or naked_prefix.startswith(':>'):
+        chunks[0] = ('s',) + tuple(chunks[0][1:])  # would read as here-document / text-until-end-of-line
+    if all(st == 'n' for st, _, _ in chunks) and not any(r for _, _, r in chunks):
+        whole = ''.join(tx for _, tx, _ in chunks)
+        if whole in NAKED_FORBIDDEN_TOKENS:
+            return [('s', whole, False)]  # a reserved word / an option is a string only when quoted
+    return chunks
+
+
+def bare_reference(sspec):
+    """-> the symbol name if the token is exactly one unquoted SYMBOL-REFERENCE, else None"""
+    chunks = string_chunks(sspec)
+    if len(chunks) == 1 and chunks[0][0] == 'n' and chunks[0][2]:
+        return chunks[0][1]
+    return None
+
+
 def strip_source(pieces):
     """`:> TEXT`: "whitespace at both ends is removed" - of the source text, before references are substituted"""
     ps = [list(p) for p in pieces]
@@ -547,22 +641,50 @@ def expectations_at(c, home, sds):
 # ---------------------------------------------------------------------------
 # the modelled defect KF-C10-1
 # ---------------------------------------------------------------------------
-def kf1_predictions(parts):
-    """KF-C10-1: when the stdin of a process is the concatenation of several text sources and one of them is the
-    output of a program, the program writes through the file descriptor while the text of the other parts still
-    sits in the writer's buffer: outputs of programs come first, then everything else, each group in order.
-    parts: [[text, is_program_output], ...] -> set of texts the defect can produce (other than the correct one)."""
-    idx = [i for i, (t, pgm) in enumerate(parts) if pgm]
+def kf1_matches(parts, received):
+    """KF-C10-1: the stdin of a process is the concatenation of several text sources, written one after the other
+    into one (buffered) Python text file; a part that is the output of a program is written by that program
+    straight through the file descriptor, while (the tail of) the text written before it still sits in the
+    writer's buffer.  So the defect predicts: the output of >= 1 program parts appears EARLIER than it should -
+    somewhere inside / before the text that precedes it - and nothing else changes: the order of all other text is
+    kept, outputs of programs keep their mutual order, nothing is lost or duplicated.
+    (Which prefix of the earlier text has been flushed already depends on buffer sizes: any position qualifies.)
+    parts: [[text, is_program_output], ...]; received: the stdin the process got.
+    -> True iff `received` differs from the correct text exactly in the way the defect predicts."""
     correct = ''.join(t for t, _ in parts)
-    out = set()
+    if received == correct or len(received) != len(correct):
+        return False
+    idx = [i for i, (t, pgm) in enumerate(parts) if pgm and t != '']
     n = len(idx)
     for mask in range(1, 1 << n):
         moved = [idx[j] for j in range(n) if mask & (1 << j)]
-        first = ''.join(parts[i][0] for i in moved)
         rest = ''.join(parts[i][0] for i in range(len(parts)) if i not in moved)
-        if first + rest != correct:
-            out.add(first + rest)
-    return out
+        # offset (in `rest`) at which every moved part belongs
+        belongs = [sum(len(parts[i][0]) for i in range(m) if i not in moved) for m in moved]
+        texts = [parts[m][0] for m in moved]
+
+        def place(k, lo, consumed_received, any_early):
+            """parts k.. are still to be placed; `rest[:lo]` and the parts before k account for
+            received[:consumed_received]"""
+            if k == len(moved):
+                return any_early and received[consumed_received:] == rest[lo:]
+            t = texts[k]
+            # candidate offsets o in [lo, belongs[k]]: rest[lo:o] must equal received[consumed:consumed + o - lo]
+            o = lo
+            while o <= belongs[k]:
+                pos = consumed_received + (o - lo)
+                if received.startswith(t, pos):
+                    if place(k + 1, o, pos + len(t), any_early or o < belongs[k]):
+                        return True
+                if o < len(rest) and pos < len(received) and rest[o] == received[pos]:
+                    o += 1
+                else:
+                    break
+            return False
+
+        if place(0, 0, 0, False):
+            return True
+    return False
 
 
 def canonical(obj):
